@@ -580,6 +580,27 @@ func (p *Prog) hardlinkMarkerRule(r *Report, rule string) {
 						if lk, ok := e.Tuple.(*ssa.Lookup); ok && tagsOf(lk.X, SliceOpts{})["fs.PathHasher.memo"] {
 							nilFact = true
 						}
+						// the locked lookup may be a method of its own: memoised(path) returning (entry, present)
+						if hc, ok := e.Tuple.(*ssa.Call); ok {
+							if g := hc.Call.StaticCallee(); g != nil && g.Blocks != nil && g.Pkg == Hash.Pkg && g.Signature.Results().Len() == 2 {
+								all, any := true, false
+								for _, ret := range returnsOf(g) {
+									pe, ok := unspill(ret.Results[1]).(*ssa.Extract)
+									lk, isLk := (ssa.Value)(nil), false
+									if ok && pe.Index == 1 {
+										lk, isLk = pe.Tuple, true
+									}
+									if l2, ok2 := lk.(*ssa.Lookup); isLk && ok2 && tagsOf(l2.X, SliceOpts{})["fs.PathHasher.memo"] {
+										any = true
+									} else {
+										all = false
+									}
+								}
+								if all && any {
+									nilFact = true
+								}
+							}
+						}
 					}
 				}
 				// the read argument is !recalc with recalc forced true on the same edge
